@@ -13,8 +13,9 @@ order; per field first the interface's arguments, then the implementor's extra o
 argument; earlier diagnostics are kept.  `owed*` are written from the rule above.
 
 Listed rewrites (each pinned): parameter types IndexMap / IndexSet -> the sequence-view shims of unit `types`; `for x in &collection` ->
-the language's own desugaring into an index loop (Verus: `continue` inside `for`); `.iter().find(|a| a.name == X.name)` ->
-`find_argument(.., &X.name)` (first argument with that name); `.iter().any(|a| a.name == X.name)` -> `has_argument(.., &X.name)`;
+the language's own desugaring into an index loop (Verus: `continue` inside `for`); `.iter().find(|a| P)` / `.iter().any(|a| P)` ->
+`vec_find(&v, closure)` / `vec_any(&v, closure)` where the closure keeps the predicate P verbatim as its body and gets its type and postcondition spelled out
+(`ensures b == (P)`, with field accesses through a Node written `.0.` in the spec copy) -- so a changed predicate is judged, not lost;
 `*a.ty != *b.ty` -> `!type_eq(&a.ty, &b.ty)` (shim of the derived, structural PartialEq of ast::Type).
 
 Shims (trusted): Name as an id (equality of names = equality of texts); Node / Component as Box + Deref, locations opaque;
@@ -77,16 +78,39 @@ pub type Args = Seq<Node<InputValueDefinition>>;
 pub open spec fn arg_idx(a: Args, k: Name, n: int) -> int decreases n {
     if n <= 0 { -1 } else { let r = arg_idx(a, k, n - 1); if r >= 0 { r } else if a[n - 1].0.name == k { n - 1 } else { -1 } }
 }
-// `args.iter().find(|a| a.name == *name)`: the first argument with that name
+// `args.iter().find(P)` / `.any(P)` (std): the first element satisfying the predicate / whether there is one.  The predicate is the code's own closure.
 #[verifier::external_body]
-pub fn find_argument<'a>(args: &'a Vec<Node<InputValueDefinition>>, name: &Name) -> (r: Option<&'a Node<InputValueDefinition>>)
-    ensures r is Some <==> arg_idx(args@, *name, args@.len() as int) >= 0, r is Some ==> *r->0 == args@[arg_idx(args@, *name, args@.len() as int)]
+pub fn vec_find<'a, T, F: Fn(&T) -> bool>(v: &'a Vec<T>, f: F) -> (r: Option<&'a T>)
+    requires forall|x: &T| f.requires((x,))
+    ensures match r {
+        Some(x) => exists|i: int| 0 <= i < v@.len() && #[trigger] v@[i] == *x && f.ensures((&v@[i],), true) && forall|j: int| 0 <= j < i ==> f.ensures((&#[trigger] v@[j],), false),
+        None => forall|j: int| 0 <= j < v@.len() ==> f.ensures((&#[trigger] v@[j],), false),
+    }
 { unimplemented!() }
-// `args.iter().any(|a| a.name == *name)`
 #[verifier::external_body]
-pub fn has_argument(args: &Vec<Node<InputValueDefinition>>, name: &Name) -> (r: bool)
-    ensures r == (arg_idx(args@, *name, args@.len() as int) >= 0)
+pub fn vec_any<T, F: Fn(&T) -> bool>(v: &Vec<T>, f: F) -> (r: bool)
+    requires forall|x: &T| f.requires((x,))
+    ensures r <==> exists|i: int| 0 <= i < v@.len() && f.ensures((&#[trigger] v@[i],), true),
+            !r <==> forall|j: int| 0 <= j < v@.len() ==> f.ensures((&#[trigger] v@[j],), false)
 { unimplemented!() }
+/// arg_idx is the first index with that name
+pub proof fn lemma_arg_idx(a: Args, k: Name, n: int)
+    requires 0 <= n <= a.len()
+    ensures -1 <= arg_idx(a, k, n) < n,
+            arg_idx(a, k, n) >= 0 ==> a[arg_idx(a, k, n)].0.name == k && forall|j: int| 0 <= j < arg_idx(a, k, n) ==> (#[trigger] a[j]).0.name != k,
+            arg_idx(a, k, n) < 0 ==> forall|j: int| 0 <= j < n ==> (#[trigger] a[j]).0.name != k,
+    decreases n
+{
+    if n > 0 { lemma_arg_idx(a, k, n - 1); }
+}
+pub proof fn lemma_arg_idx_is(a: Args, k: Name, i: int)
+    requires 0 <= i < a.len(), a[i].0.name == k, forall|j: int| 0 <= j < i ==> (#[trigger] a[j]).0.name != k
+    ensures arg_idx(a, k, a.len() as int) == i
+{
+    lemma_arg_idx(a, k, a.len() as int);
+    let x = arg_idx(a, k, a.len() as int);
+    if x < 0 { assert(a[i].0.name != k); } else if x < i { assert(a[x].0.name != k); } else if i < x { assert(a[i].0.name != k); }
+}
 
 pub type FieldMapSeq = Seq<(Name, Component<FieldDefinition>)>;
 pub open spec fn find_idx(m: FieldMapSeq, k: Name, n: int) -> int decreases n {
@@ -204,6 +228,23 @@ pub proof fn lemma_reps_push(e0: Seq<DiagnosticEntry>, e1: Seq<DiagnosticEntry>,
 }
 '''
 
+
+def _spec_form(pred):
+    """the predicate as a spec expression: field accesses through a `Node` (exec `Deref`) are spelled `.0.`"""
+    import re as _re
+    return _re.sub(r"\b(a|iface_arg|impl_arg)\.", r"\1.0.", pred)
+
+
+def _find_rw(m):
+    """`.iter().find(|a| P)` -> `vec_find(&v, |a: &Node<InputValueDefinition>| -> (b: bool) ensures b == (P in spec form) { P })`: the predicate P is kept verbatim as the closure's body"""
+    return "vec_find(&impl_field.arguments, |a: &Node<InputValueDefinition>| -> (b: bool) ensures b == (%s) { %s });" % (_spec_form(m.group(1)), m.group(1))
+
+
+def _any_rw(m):
+    """`.iter().any(|a| P)` -> `vec_any(&v, |a: &Node<InputValueDefinition>| -> (b: bool) ensures b == (P in spec form) { P })`: the predicate P is kept verbatim as the closure's body"""
+    return "vec_any(&interface_field.arguments, |a: &Node<InputValueDefinition>| -> (b: bool) ensures b == (%s) { %s });" % (_spec_form(m.group(1)), m.group(1))
+
+
 KEPT = ("earlier_diagnostics_kept", "diagnostics.entries@.len() >= old(diagnostics).entries@.len(), diagnostics.entries@.take(old(diagnostics).entries@.len() as int) =~= old(diagnostics).entries@")
 N0 = "old(diagnostics).entries@.len() as int"
 WHO = "*implementor_name"
@@ -233,8 +274,8 @@ UNIT = {
                        ("for (field_name, interface_field) in &interface.fields {", "let mut __j: usize = 0; while __j < interface.fields.len() { let (field_name, interface_field) = interface.fields.index_pair(__j); __j += 1;", 1),
                        ("for iface_arg in &interface_field.arguments {", "let mut __k: usize = 0; while __k < interface_field.arguments.len() { let iface_arg = &interface_field.arguments[__k]; __k += 1;", 1),
                        ("for impl_arg in &impl_field.arguments {", "let mut __l: usize = 0; while __l < impl_field.arguments.len() { let impl_arg = &impl_field.arguments[__l]; __l += 1;", 1),
-                       (r"impl_field\s*\.arguments\s*\.iter\(\)\s*\.find\(\|a\| a\.name == iface_arg\.name\)", "find_argument(&impl_field.arguments, &iface_arg.name)", 1, "re"),
-                       (r"interface_field\s*\.arguments\s*\.iter\(\)\s*\.any\(\|a\| a\.name == impl_arg\.name\)", "has_argument(&interface_field.arguments, &impl_arg.name)", 1, "re"),
+                       (r"impl_field\s*\.arguments\s*\.iter\(\)\s*\.find\(\|a\| ([^\n]+)\);", _find_rw, 1, "re"),
+                       (r"interface_field\s*\.arguments\s*\.iter\(\)\s*\.any\(\|a\| ([^\n]+)\);", _any_rw, 1, "re"),
                        ("*iface_arg.ty != *impl_arg.ty", "!type_eq(&iface_arg.ty, &impl_arg.ty)", "*")],
              clauses=[("ensures", "earlier_diagnostics_kept", "final(diagnostics).entries@.len() >= old(diagnostics).entries@.len() && final(diagnostics).entries@.take(old(diagnostics).entries@.len() as int) =~= old(diagnostics).entries@"),
                       ("ensures", "exactly_the_owed_reports_in_order",
@@ -253,8 +294,12 @@ UNIT = {
                                      % (N0, BASE_J, WHO, IARGS, MARGS, IARGS, WHO, IARGS, MARGS))],
                          decreases="%s.len() - __l" % MARGS)],
              hints=[("loop_body_start", 2, "let ghost e0 = diagnostics.entries@;"),
-                    ("loop_body_end", 2, "proof { let e1 = diagnostics.entries@; if e1.len() > e0.len() { lemma_reps_push(e0, e1, %s); } else { assert(e1 =~= e0); } }" % N0),
+                    ("loop_body_end", 2, "proof { let margs = impl_field.node.0.arguments@; let k = iface_arg.0.name; lemma_arg_idx(margs, k, margs.len() as int); "
+                     "if impl_arg is Some { let x = impl_arg->0; let i = choose|i: int| 0 <= i < margs.len() && #[trigger] margs[i] == *x && margs[i].0.name == k && forall|j: int| 0 <= j < i ==> (#[trigger] margs[j]).0.name != k; lemma_arg_idx_is(margs, k, i); } } "
+                     "proof { let e1 = diagnostics.entries@; if e1.len() > e0.len() { lemma_reps_push(e0, e1, %s); } else { assert(e1 =~= e0); } }" % N0),
                     ("loop_body_start", 3, "let ghost e0 = diagnostics.entries@;"),
-                    ("loop_body_end", 3, "proof { let e1 = diagnostics.entries@; if e1.len() > e0.len() { lemma_reps_push(e0, e1, %s); } else { assert(e1 =~= e0); } }" % N0)]),
+                    ("loop_body_end", 3, "proof { let iargs = interface_field.node.0.arguments@; let k = impl_arg.0.name; lemma_arg_idx(iargs, k, iargs.len() as int); "
+                     "if in_interface { let i = choose|i: int| 0 <= i < iargs.len() && (#[trigger] iargs[i]).0.name == k; assert(arg_idx(iargs, k, iargs.len() as int) >= 0); } } "
+                     "proof { let e1 = diagnostics.entries@; if e1.len() > e0.len() { lemma_reps_push(e0, e1, %s); } else { assert(e1 =~= e0); } }" % N0)]),
     ],
 }
